@@ -88,6 +88,9 @@ func runC05(c *CaseCtx) *CaseResult {
 	if (c.Case-c05SweepCases)%25 == 21 {
 		return runCollapseCase(c, r)
 	}
+	if (c.Case-c05SweepCases)%25 == 19 {
+		return runDeflateCase(c, kind, r)
+	}
 	ops := 900
 	if c.Tier == "thorough" {
 		ops = 1500 + r.Intn(3000)
@@ -181,6 +184,151 @@ func runDeepCase(c *CaseCtx, kind string, r *rand.Rand) (*CaseResult, *World) {
 		s.Extra["deep-tree-cases-depth>=4"]++
 	}
 	return res, w
+}
+
+// runDeflateCase: A TREE THAT SHRINKS ONLY THROUGH OVERWRITES. N elements near half the inline limit are built into a tree of
+// three or more levels; then every element is overwritten by a tiny one (sequentially, backwards, or in PRNG order) with no
+// removal in between, so that data slabs and then index slabs underflow, merge and borrow - and the root collapses level by
+// level - inside Set. The structural walk runs after every operation. A second pass re-inflates in place (splits inside Set).
+func runDeflateCase(c *CaseCtx, kind string, r *rand.Rand) *CaseResult {
+	slab := deepSlabSizes[r.Intn(len(deepSlabSizes))]
+	res := &CaseResult{Config: map[string]any{"kind": kind, "deflate_case": true, "slab_size": slab}}
+	atree.VerifSetThreshold(slab)
+	defer atree.VerifSetThreshold(1024)
+	w := NewWorld(c.CaseSeed(), addrOf(byte(1+c.Case%200), 0))
+	w.prof.MaxDepth = 0
+	w.prof.PContainer = 0
+	w.mon = MonCfg{TreeEvery: 1, ReachEvery: 40, DeepEvery: 500, RefEvery: 500, DirtyEvery: 10, ColdAtCommit: true}
+	res.Stats = w.stats
+	finish := func(e error) *CaseResult {
+		if e != nil {
+			if v, ok := e.(*Violation); ok {
+				res.fail(v)
+			} else {
+				res.fail(viol("harness", "%v", e))
+			}
+		}
+		res.Trace = w.trace
+		res.Hash = traceHash(res.Config, w.trace)
+		res.NonTrivial = w.stats.Extra["deflate-cases-depth>=3"] > 0 && w.stats.Merges > 0
+		return res
+	}
+	defer func() {
+		if p := recover(); p != nil {
+			res.Trace = w.trace
+			panic(p)
+		}
+	}()
+	var root *Node
+	var err error
+	if kind == "array" {
+		root, err = w.NewRootArray(w.addr, w.newTI(false))
+	} else {
+		root, err = w.NewRootMap(w.addr, w.newTI(false), nil)
+	}
+	if err != nil {
+		return finish(err)
+	}
+	w.AddRoot(root)
+	th := atree.VerifThresholds()
+	n := 230 + r.Intn(500)
+	if c.Tier == "thorough" {
+		n += r.Intn(1500)
+	}
+	if kind == "map" && r.Intn(2) == 0 {
+		// few enough entries that the deflated map fits below ONE index slab (a map index slab holds about 13 children,
+		// a deflated data slab about 8 entries), many enough that the inflated one needs three levels
+		n = 70 + r.Intn(45)
+	}
+	res.Config["elements"] = n
+	w.logOp("create root %s slab=%d elements=%d", root, slab, n)
+	step := func(err error) error {
+		if err != nil {
+			return err
+		}
+		return w.AfterOp()
+	}
+	big := func() *Node {
+		lim := int(th.MaxInlineArrayElementSize)
+		if kind == "map" {
+			lim = int(atree.VerifMaxInlineMapValueSize(9))
+		}
+		return &Node{Kind: KStr, S: w.strOfByteSize(lim*2/5 + r.Intn(lim/2))}
+	}
+	tiny := func(i int) *Node {
+		if r.Intn(4) == 0 {
+			return &Node{Kind: KU8, U: uint64(i % 200)}
+		}
+		return &Node{Kind: KU64, U: uint64(i)}
+	}
+	key := func(i int) *Node { return &Node{Kind: KU64, U: uint64(i)} }
+	set := func(i int, v *Node) error {
+		if kind == "array" {
+			return step(w.OpArraySet(root, uint64(i), v))
+		}
+		return step(w.OpMapSet(root, key(i), v))
+	}
+	for i := 0; i < n; i++ {
+		if kind == "array" {
+			err = step(w.OpArrayAppend(root, big()))
+		} else {
+			err = step(w.OpMapSet(root, key(i), big()))
+		}
+		if err != nil {
+			return finish(err)
+		}
+	}
+	depthBuilt := w.stats.MaxDepth
+	if r.Intn(2) == 0 {
+		if err := w.CommitAndCheck(false, 2); err != nil {
+			return finish(err)
+		}
+		if r.Intn(2) == 0 {
+			w.DropCache()
+		}
+	}
+	order := func() []int {
+		o := make([]int, n)
+		for i := range o {
+			o[i] = i
+		}
+		switch r.Intn(3) {
+		case 1:
+			for i, j := 0, n-1; i < j; i, j = i+1, j-1 {
+				o[i], o[j] = o[j], o[i]
+			}
+		case 2:
+			o = r.Perm(n)
+		}
+		return o
+	}
+	// deflate: overwrites only
+	for _, i := range order() {
+		if err := set(i, tiny(i)); err != nil {
+			return finish(err)
+		}
+	}
+	w.stats.Extra["deflate-passes"]++
+	if depthBuilt >= 3 {
+		w.stats.Extra["deflate-cases-depth>=3"]++
+		if d := w.quickDepth(root); d > 0 && d < depthBuilt {
+			w.stats.Extra["deflate-cases-that-lost-a-level-by-overwrites-alone"]++
+		}
+	}
+	if err := w.CommitAndCheck(false, 2); err != nil {
+		return finish(err)
+	}
+	// re-inflate in place
+	for _, i := range order() {
+		if err := set(i, big()); err != nil {
+			return finish(err)
+		}
+	}
+	w.stats.Extra["inflate-passes"]++
+	if err := w.CheckDeep(); err != nil {
+		return finish(err)
+	}
+	return finish(w.CommitAndCheck(false, 2))
 }
 
 // runCollapseCase: REMOVAL THAT MAKES THE TREE GROW. Under the paired digest profile every collision group has exactly two
@@ -1194,7 +1342,7 @@ func init() {
 			"one pair in every 50 history cases is a DEEP-TREE case (slab size 256..300, thousands of small elements, tree depth >= 4: splits / merges / borrowing between index slabs over several levels, walk every 16 operations and after every slab-creating or -removing operation). " +
 			"non-trivial = >=3 slabs, slabs observed within 8 bytes of both band edges, slab-creating and slab-removing operations (deep cases: depth >= 4); distinct by hash(config, operation list)",
 		Assumptions: []string{"the size constants restated in harness/walker.go are cross-checked against real encodings by the C06 check", "exploration, not proof"},
-		Mandatory:   []string{"slabs_near_upper_bound", "slabs_near_lower_bound", "ops_that_removed_slabs", "slab_sizes_swept", "deep-tree-cases-depth>=4", "removals-that-created-slabs", "root-index-slab-splits-during-removal"},
+		Mandatory:   []string{"slabs_near_upper_bound", "slabs_near_lower_bound", "ops_that_removed_slabs", "slab_sizes_swept", "deep-tree-cases-depth>=4", "removals-that-created-slabs", "root-index-slab-splits-during-removal", "deflate-cases-that-lost-a-level-by-overwrites-alone"},
 	})
 	register(&Prop{
 		ID: "C06", Level: "exploration", Run: runC06, Cases: cases(16*48, 16*200), MinNonTrivial: 8,
